@@ -80,6 +80,14 @@ func CheckStorageHealth(storage SlabStorage, expectedNumberOfRootSlabs int) (map
 		}
 	}
 
+	// Every referenced slab must exist.  The slab iterator skips IDs that are removed in the
+	// write set or cached as deleted, so a dangling reference to such a slab isn't seen above.
+	for childID, parentID := range parentOf {
+		if _, ok := slabs[childID]; !ok {
+			return nil, NewSlabNotFoundErrorf(childID, "slab %s referenced by slab %s not found", childID, parentID)
+		}
+	}
+
 	rootsMap := make(map[SlabID]struct{})
 	visited := make(map[SlabID]struct{})
 	var id SlabID
